@@ -101,8 +101,10 @@ impl Ctx {
         return;
       }
     }
-    *self.sig_counts.entry(signatures.join("|")).or_insert(0) += 1;
-    if self.violations.len() >= 25 {
+    let cnt = self.sig_counts.entry(signatures.join("|")).or_insert(0);
+    *cnt += 1;
+    let written = self.violations.iter().filter(|(_, p)| !p.as_os_str().is_empty()).count();
+    if *cnt > 3 || written >= 90 {
       self.violations.push((message.to_string(), PathBuf::new()));
       return;
     }
